@@ -155,7 +155,7 @@ package goat
 //@     | == old(ncalls("fnfield:H.google.golang.org/grpc.StreamDesc.Handler") + ncalls("fnfield:H.goat.Server.streamInterceptor")) + 1
 //@   ensures[C07.stream_ctx_cancelled_at_exit C10.stream_ctx_cancelled_at_exit] done(cancels(handler.cancel))
 //@   atcall[C03.trailer_carries_handler_result C06.trailer_carries_handler_result] server.(*serverStream).SendTrailer : arg1 == appErr
-//@   atcall[C11.stream_signals_before_it_waits_for_the_registry_lock] goat.(*handler).unregisterStream : done(cancels(handler.cancel))
+//@   atcall[C11.stream_signals_before_it_waits_for_the_registry_lock C14.stream_signals_before_it_waits_for_the_registry_lock C10.stream_signals_before_it_waits_for_the_registry_lock] goat.(*handler).unregisterStream : done(cancels(handler.cancel))
 
 // reader closure of a server stream: only this stream's queue, or the stream context's error
 //@ func goat.(*handler).runStream$1
@@ -279,6 +279,7 @@ package goat
 //@   inv[C18.conn_table] forall k String :: k in self.conns.value ==> self.conns.value[k] != nil && self.conns.value[k].r != nil && self.conns.value[k].w != nil
 //@     | && self.conns.value[k].done != nil && !closed(self.conns.value[k].done) && self.conns.value[k].r != self.conns.value[k].w
 //@     | && tag(self.conns.value[k].r) == strId(k) && tag(self.conns.value[k].w) == strId(k) && tag(self.conns.value[k].done) == strId(k)
+//@   inv[C18.hand_off_is_synchronous] forall k String :: k in self.conns.value ==> cap(self.conns.value[k].r) == 0 && cap(self.conns.value[k].w) == 0
 // the data queues of a logical connection are never closed (a parked hand-off cannot panic); Cancel closes done
 //@ chan H.goat.demuxConn.r never_closed
 //@ chan H.goat.demuxConn.w never_closed
